@@ -98,6 +98,15 @@ def run_case(case, ctx):
             ctx.check(False, 'same_event_sequence', 'neighbour_run_failed',
                       '%s, %s neighbour: run on D\' raised although fed the outcomes recorded on D: %s' % (case['mech'], kind, r2['error'][-400:]), mech=case['mech'])
             continue
+        # a release whose cells share one noise draw fixes every contrast between those cells: the values recorded on D
+        # can be observed on D' only if they differ from D's statistic by a constant too
+        for j_, e_ in enumerate(r2['events']):
+            if e_['type'] == 'release' and e_.get('noise_n', e_['n']) < e_['n']:
+                res = (np.asarray(e_['y'], dtype=float) - np.asarray(e_['x'], dtype=float)).reshape(-1)
+                tol = 1e-9 * max(1.0, float(np.abs(e_['y']).max()))
+                ctx.check(e_['noise_n'] == 1 and bool(np.all(np.abs(res - res[0]) <= tol)), 'same_event_sequence', 'release_not_observable_on_neighbour',
+                          '%s, %s neighbour: release %d adds %d noise draw(s) to %d cells, so the contrasts between cells are released exactly; the values recorded on D '
+                          'cannot occur on D\'' % (case['mech'], kind, j_, e_['noise_n'], e_['n']), mech=case['mech'])
         sk2 = privacy.skeleton(r2['events'])
         same = sk1 == sk2
         if not same:
